@@ -4,7 +4,7 @@ call -- any line of cache.py at which the cache lock is not held -- the other th
 store() the writer does one, two or as many drain_metric() calls as it takes to empty the cache;
 inside a drain_metric() the receiver does one store() (from a sys.settrace hook, i.e. exactly as if
 that thread had been scheduled there).  Every history of <= depth operations over 2 metrics x 2
-timestamps x every injection point x cache sizes (incl. pre-filled caches of 20 with flow control,
+timestamps (one long ago, one later than this machine's clock) x every injection point x cache sizes (incl. pre-filled caches of 20 with flow control,
 the only way cacheFull can fire) x flow control x strategies.
 
 Clauses (ids):
@@ -34,6 +34,7 @@ import carbon.cache as C                   # noqa: E402
 STRATS = {'none': None, 'naive': C.NaiveStrategy, 'max': C.MaxStrategy, 'sorted': C.SortedStrategy,
           'timesorted': C.TimeSortedStrategy, 'bucketmax': C.BucketMaxStrategy, 'random': C.RandomStrategy}
 CACHE_FILE = C.__file__.replace('.pyc', '.py')
+FUTURE = 4102444800.5      # a timestamp later than this machine's clock (2100-01-01), fractional
 
 
 def configure(mx, flow):
@@ -119,7 +120,7 @@ def run(strat, mx, flow, hist, inject, prefill=0):
                 break
           else:
             # the receiver thread runs here: one store chosen by inject[2]
-            (im, its) = [('a', 1), ('a', 2), ('b', 1), ('b', 3)][inject[2]]
+            (im, its) = [('a', 1), ('a', FUTURE), ('b', 1), ('b', FUTURE + 1)][inject[2]]
             do_store(im, its, 500.0 + _idx, _idx + 0.5, 'receiver at step %d of drain #%d' % (_st['n'], _idx))
       return local
 
@@ -171,7 +172,7 @@ def work(job):
   (strat, mx, flow, depth, only, prefill) = job
   evals = 0
   fails = {}
-  ops = [('s', m, t) for m in ('a', 'b') for t in (1, 2)] + [('d',)]
+  ops = [('s', m, t) for m in ('a', 'b') for t in (1, FUTURE)] + [('d',)]
   for n in range(1, depth + 1):
     for hist in itertools.product(ops, repeat=n):
       r, steps = run(strat, mx, flow, hist, None, prefill)
